@@ -72,7 +72,11 @@ ReqChain(a, out, o) ==
   ELSE {
     <<"C03.issuer_name_bytes_eq_issuer_subject", o.leafIssuerRaw = a.ca.subjectRaw>>,
     <<"C03.aki_eq_issuer_ski", a.akiRequested /\ a.ca.ski.k = "some" => o.leafAki = a.ca.ski>>,
-    <<"C03.validators_accept_chain", a.ca.isCa /\ a.timeInside => o.openssl.accept /\ o.webpki.accept>>
+    (* webpki refuses a CA certificate in the end-entity position (documented); OpenSSL alone judges those chains *)
+    (* a certificate whose subject equals its issuer's name although another key signed it ("self-issued") is    *)
+    (* treated as a self-signed root by path builders: such chains (they arise in sessions) are not judged        *)
+    <<"C03.validators_accept_chain", a.ca.isCa /\ a.timeInside /\ o.leafSubjectRaw # o.leafIssuerRaw =>
+                                       o.openssl.accept /\ (a.leafIsCa \/ o.webpki.accept)>>
   }
 
 (* ---- implementation-shaped import of a foreign name (lib.rs DistinguishedName::from_name) ---- *)
